@@ -11,7 +11,10 @@ Two correspondence layers (DESIGN.md 5/C09):
    compared for EQUALITY with the Coq model (Model/Assembly14.v, runner commands 150-155 of
    Extract/RunAsm.v, run through the extracted driver) on the same labels.  For the symmetric
    classes two labellings are used: one with the symmetry the class assumes, and a raw one
-   (no symmetry) under which upper/lower mirroring and "last write wins" are visible.
+   (no symmetry) under which upper/lower mirroring and "last write wins" are visible.  Shells may be
+   convention subclasses (permuted Cartesian order, permuted / signed pure labels): the stub honours the
+   convention it is handed, the model gets each shell's own matrix (conv_T) - so a transformation that is
+   built for one shell and used for another shell of the same angular momentum gives other integers.
 2. Numeric, through the real public functions: the metamorphic laws of the property on the
    implementation itself (mixed == (+)T_s applied to all-Cartesian on every basis index;
    transform=T == T applied to every index of the untransformed result; custom component
@@ -32,7 +35,15 @@ RULE = ("labelled layer: every cartesian/spherical assignment of 1-4 shells (one
         "that all block sizes of a case are pairwise distinct, rectangular integer T, methods cartesian / spherical "
         "/ mix / lincomb, labellings 'sym' and 'raw'; numeric layer: random bases of 1-3 shells (l 0..3, M 1..2, "
         "dyadic inputs), every assignment, ten public functions with and without a rectangular transform, and "
-        "custom-convention shell subclasses (random component permutations, l<=3, and sign flips); a case is "
+        "custom-convention shell subclasses (random component permutations, l<=3, and sign flips); SAME-l streams "
+        "(tags 'lab-conv', 'conv-same-l'): for every base class and all four dispatch targets, 2-3 shells of ONE "
+        "angular momentum l>=1 carrying pairwise DIFFERENT conventions (default / permuted Cartesian order / permuted "
+        "and sign-flipped pure labels / both) inside one basis and, for the asymmetric class, across the two bases, "
+        "under all-spherical, all-Cartesian and mixed assignments - the integer stub of generate_transformation "
+        "honours the (cart, sph) it is handed and the model receives each shell's own matrix computed from the case "
+        "description; the numeric same-l stream runs every public function (asymmetric overlap: all-spherical on both "
+        "sides, same pure labels with another Cartesian order included) against the default-convention result permuted "
+        "and signed per shell; a case is "
         "non-trivial when some shell has l>=2 spherical (transform not a permutation) or M>1 or a transform is "
         "given; distinct by the hash of the case description")
 ASSUMPTIONS = [
@@ -71,9 +82,49 @@ def stub_T(l):
     return [[1 + base + r * ncart(l) + c for c in range(ncart(l))] for r in range(2 * l + 1)]
 
 
+def default_comps(l):
+    """default Cartesian component order of GeneralizedContractionShell (contractions.py:361-385)"""
+    return [(x, y, l - x - y) for x in range(l, -1, -1) for y in range(l - x, -1, -1)]
+
+
+def default_sph_labels(l):
+    if l == 1:
+        return ["c1", "s1", "c0"]
+    return ["s%d" % m for m in range(l, 0, -1)] + ["c%d" % m for m in range(l + 1)]
+
+
 def stub_generate_transformation(angmom, cart, sph, apply_from):
+    """integer-labelled stand-in that HONOURS the convention it is handed: column k is the column of the Cartesian
+    component cart[k], row r is (signed) the row of the pure function sph[r] of stub_T(angmom).  It reads only its
+    arguments, so an assembly routine that hands it the convention of ANOTHER shell (or reuses the matrix of another
+    shell of the same angular momentum) produces other integers than the model."""
     assert apply_from == "left"
-    return np.array(stub_T(int(angmom)), dtype=object)
+    l = int(angmom)
+    base = stub_T(l)
+    dc = default_comps(l)
+    dl = default_sph_labels(l)
+    cols = [dc.index(tuple(int(v) for v in c)) for c in np.asarray(cart)]
+    out = []
+    for lab in sph:
+        sign = -1 if lab.startswith("-") else 1
+        r = dl.index(lab[1:] if sign < 0 else lab)
+        out.append([sign * base[r][c] for c in cols])
+    return np.array(out, dtype=object)
+
+
+def conv_T(l, conv):
+    """the shell's transform the MODEL is given, computed from the case description alone (not through the shell
+    object): T_conv[r][k] = sign_r * stub_T(l)[row of label r][perm[k]]"""
+    base = stub_T(l)
+    if conv is None:
+        return base
+    dl = default_sph_labels(l)
+    out = []
+    for lab in conv["labels"]:
+        sign = -1 if lab.startswith("-") else 1
+        r = dl.index(lab.lstrip("-"))
+        out.append([sign * base[r][k] for k in conv["perm"]])
+    return out
 
 
 def norm_label(sid, M, L):
@@ -105,13 +156,34 @@ def mk_lab_shells(spec, first_sid=0):
     out = []
     off = 0
     for k, sp in enumerate(spec):
-        sh = GeneralizedContractionShell(sp["l"], np.zeros(3), np.ones((1, sp["M"])), np.ones(1), "cartesian")
+        cls = convention_class(sp["conv"]) if sp.get("conv") else GeneralizedContractionShell
+        sh = cls(sp["l"], np.zeros(3), np.ones((1, sp["M"])), np.ones(1), "cartesian")
         sh.norm_cont = np.array(norm_label(first_sid + k, sp["M"], ncart(sp["l"])), dtype=object)
         sh._cid = k
         sh._off = off
         off += sp["M"] * ncart(sp["l"])
         out.append(sh)
     return out, off
+
+
+def convention_class(conv):
+    """GeneralizedContractionShell subclass reporting another component order / sign convention (as
+    gbasis/wrappers.py builds them for other programs): Cartesian components default[perm], pure labels as given"""
+    from gbasis.contractions import GeneralizedContractionShell as G
+
+    perm = list(conv["perm"])
+    labels = tuple(conv["labels"])
+
+    class ConventionShell(G):
+        @property
+        def angmom_components_cart(self):
+            return G.angmom_components_cart.fget(self)[perm]
+
+        @property
+        def angmom_components_sph(self):
+            return labels
+
+    return ConventionShell
 
 
 def gids(sh):
@@ -153,7 +225,7 @@ def obj(nested):
 
 
 def sh_sx(spec, first_sid=0):
-    return [[1 if sp["sph"] else 0, stub_T(sp["l"]), norm_label(first_sid + k, sp["M"], ncart(sp["l"]))]
+    return [[1 if sp["sph"] else 0, conv_T(sp["l"], sp.get("conv")), norm_label(first_sid + k, sp["M"], ncart(sp["l"]))]
             for k, sp in enumerate(spec)]
 
 
@@ -298,8 +370,10 @@ def eval_labelled(model, case):
     pat = "".join("s" if sp["sph"] else "c" for sp in spec)
     if cls == "two_asymm":
         pat += "|" + "".join("s" if sp["sph"] else "c" for sp in case["shells2"])
+    allspec = spec + (case["shells2"] if cls == "two_asymm" else [])
+    kind = "lab-conv" if any(sp.get("conv") for sp in allspec) else "lab"
     return {"detail": details[0] if details else None, "nontrivial": True,
-            "tag": "lab %s %s %s" % (cls, mode if cls in ("two_symm", "four") else "raw", pat)}
+            "tag": "%s %s %s %s" % (kind, cls, mode if cls in ("two_symm", "four") else "raw", pat)}
 
 
 def sizes_distinct(spec):
@@ -366,6 +440,113 @@ def gen_labelled(tier, rng):
                 spec = draw_spec(rng, pattern, lmax, 2 if n >= 3 else 3, maxtot={1: 30, 2: 22, 3: 16, 4: 14}[n])
                 cases.append({"kind": "lab", "cls": "four", "labels": lm, "shells": spec,
                               "T": draw_T(rng, ntot(spec))})
+    return cases
+
+
+FLAVOURS = ("default", "cart", "sph", "both")
+
+
+def draw_conv(rng, l, flavour):
+    """a component convention of one shell: 'cart' = permuted Cartesian order (default pure labels), 'sph' = permuted
+    and sign-flipped pure labels (default Cartesian order), 'both', or None for 'default'"""
+    if flavour == "default" or l == 0:
+        return None
+    perm = list(range(ncart(l)))
+    labels = default_sph_labels(l)
+    if flavour in ("cart", "both"):
+        while perm == sorted(perm):
+            rng.shuffle(perm)
+    if flavour in ("sph", "both"):
+        base = list(labels)
+        while labels == base:
+            rng.shuffle(labels)
+        k = rng.randrange(len(labels))
+        labels = [("-" + x) if (i == k or rng.random() < 0.4) else x for i, x in enumerate(labels)]
+    return {"perm": perm, "labels": labels}
+
+
+def draw_conv_spec(rng, pattern, l, flavours, lmax_other, mmax=3, maxtot=None):
+    """len(flavours) shells of the SAME angular momentum l, each with its own convention and its own M (block sizes
+    stay pairwise distinct), plus len(pattern)-len(flavours) shells of other angular momenta, in random positions"""
+    n = len(pattern)
+    for _ in range(2000):
+        ms = rng.sample(range(1, mmax + 1), len(flavours))
+        spec = [{"l": l, "M": m, "conv": draw_conv(rng, l, f)} for m, f in zip(ms, flavours)]
+        for _k in range(n - len(flavours)):
+            lo = rng.choice([x for x in range(lmax_other + 1) if x != l])
+            spec.append({"l": lo, "M": rng.randint(1, mmax), "conv": draw_conv(rng, lo, rng.choice(FLAVOURS))})
+        rng.shuffle(spec)
+        spec = [dict(sp, sph=bool(t)) for sp, t in zip(spec, pattern)]
+        for sp in spec:
+            if sp["conv"] is None:
+                del sp["conv"]
+        if not sizes_distinct(spec):
+            continue
+        if maxtot is not None and sum(sp["M"] * ncart(sp["l"]) for sp in spec) > maxtot:
+            continue
+        return spec
+    raise RuntimeError("no convention spec for pattern %r l=%d" % (pattern, l))
+
+
+def conv_patterns(rng, n):
+    """all-spherical, all-Cartesian and one mixed assignment"""
+    pats = [(1,) * n, (0,) * n]
+    if n >= 2:
+        while True:
+            p = tuple(rng.randint(0, 1) for _ in range(n))
+            if 0 < sum(p) < n:
+                break
+        pats.append(p)
+    return pats
+
+
+def draw_flavours(rng, k):
+    """k pairwise different conventions, not all of them the default one"""
+    return rng.sample(FLAVOURS, k) if k >= 2 else [rng.choice(FLAVOURS[1:])]
+
+
+def gen_labelled_conv(tier, rng):
+    """shells of ONE angular momentum carrying DIFFERENT conventions inside one basis (and, for the asymmetric class,
+    across the two bases), for every base class; eval_labelled runs all four dispatch targets on every case, so the
+    all-spherical path of every class sees them whatever the case's own assignment is"""
+    cases = []
+    thorough = tier != "quick"
+    reps = 3 if thorough else 1
+    for _ in range(reps):
+        for n in (2, 3):
+            for pattern in conv_patterns(rng, n):
+                k = 2 if n == 2 else rng.choice([2, 3])
+                spec = draw_conv_spec(rng, pattern, rng.randint(1, 4), draw_flavours(rng, k), 4)
+                cases.append({"kind": "lab", "cls": "one", "shells": spec, "T": draw_T(rng, ntot(spec))})
+                for lm in ("sym", "raw"):
+                    k = 2 if n == 2 else rng.choice([2, 3])
+                    spec = draw_conv_spec(rng, pattern, rng.randint(1, 3), draw_flavours(rng, k), 3, maxtot=60)
+                    cases.append({"kind": "lab", "cls": "two_symm", "labels": lm, "shells": spec,
+                                  "T": draw_T(rng, ntot(spec))})
+        for n1, n2 in ((1, 1), (2, 1), (1, 2), (2, 2)):
+            p1s, p2s = conv_patterns(rng, n1), conv_patterns(rng, n2)
+            pairs = [(p1s[0], p2s[0]), (p1s[1], p2s[1]), (p1s[0], p2s[-1]) if n2 >= 2 else (p1s[-1], p2s[0])]
+            if n1 == 1 and n2 == 1:
+                pairs[2] = ((1,), (0,))
+            for p1, p2 in pairs:
+                l = rng.randint(1, 3)
+                k1 = rng.randint(1, n1)
+                k2 = rng.randint(1, min(n2, 4 - k1))
+                fl = rng.sample(FLAVOURS, k1 + k2)      # pairwise different across the two bases as well
+                s1 = draw_conv_spec(rng, p1, l, fl[:k1], 3, maxtot=45)
+                s2 = draw_conv_spec(rng, p2, l, fl[k1:], 3, maxtot=45)
+                which = rng.randint(0, 3)
+                cases.append({"kind": "lab", "cls": "two_asymm", "shells": s1, "shells2": s2,
+                              "T": draw_T(rng, ntot(s1)) if which != 1 else None,
+                              "T2": draw_T(rng, ntot(s2)) if which != 2 else None})
+        for n in (2, 3):
+            for pattern in conv_patterns(rng, n):
+                for lm in (("sym", "raw") if n == 2 or thorough else (rng.choice(["sym", "raw"]),)):
+                    l = rng.randint(1, 2) if n == 2 else 1
+                    spec = draw_conv_spec(rng, pattern, l, draw_flavours(rng, 2), 1 if n == 3 else 2, mmax=2,
+                                          maxtot={2: 22, 3: 16}[n])
+                    cases.append({"kind": "lab", "cls": "four", "labels": lm, "shells": spec,
+                                  "T": draw_T(rng, ntot(spec))})
     return cases
 
 
@@ -445,12 +626,6 @@ def block_diag(mats):
     return out
 
 
-def default_sph_labels(l):
-    if l == 1:
-        return ["c1", "s1", "c0"]
-    return ["s%d" % m for m in range(l, 0, -1)] + ["c%d" % m for m in range(l + 1)]
-
-
 def make_shell(sj, conv=None, force_cart=False):
     """gbasis shell from the exact description; conv = dict(perm=[..], labels=[..]) builds a
     GeneralizedContractionShell subclass reporting another component order / sign convention
@@ -462,19 +637,7 @@ def make_shell(sj, conv=None, force_cart=False):
             np.array([float(e) for e in xs.exps]), "spherical" if (xs.sph and not force_cart) else "cartesian")
     if conv is None:
         return G(*args)
-    perm = list(conv["perm"])
-    labels = tuple(conv["labels"])
-
-    class ConventionShell(G):
-        @property
-        def angmom_components_cart(self):
-            return G.angmom_components_cart.fget(self)[perm]
-
-        @property
-        def angmom_components_sph(self):
-            return labels
-
-    return ConventionShell(*args)
+    return convention_class(conv)(*args)
 
 
 def shell_U(sh, sj):
@@ -491,6 +654,8 @@ def shell_U(sh, sj):
 def conv_P(sj, conv):
     """output(custom)[k'] = sum_k P[k', k] output(default)[k] for one shell"""
     M = len(sj["coeffs"][0])
+    if conv is None:
+        return np.eye(M * ((2 * sj["l"] + 1) if sj["sph"] else ncart(sj["l"])))
     if sj["sph"]:
         dl = default_sph_labels(sj["l"])
         p = np.zeros((len(dl), len(dl)))
@@ -508,6 +673,11 @@ def conv_P(sj, conv):
 def close(a, b, scale_extra=0.0):
     a = np.asarray(a)
     b = np.asarray(b)
+    for x in (a, b):
+        if x.dtype.kind not in "fiuc":
+            # a public function handed out something that is not an array of real numbers (e.g. object dtype: a
+            # matrix kept from an earlier, unrelated call): reported, not a reason for the harness to stop
+            return {"kind": "type", "impl": "array of dtype %s" % x.dtype, "model": "array of real or complex floats"}
     if a.shape != b.shape:
         return {"kind": "shape", "impl_shape": list(a.shape), "model_shape": list(b.shape)}
     if a.size == 0:
@@ -596,8 +766,11 @@ def eval_numeric(model, case):
                                                                float(np.abs(res_c[0]).max())))
     pat = "".join("s" if sj["sph"] else "c" for sj in bj)
     nontriv = any((sj["sph"] and sj["l"] >= 2) or len(sj["coeffs"][0]) > 1 for sj in bj) or Tm is not None
+    if bj2:
+        pat += "|" + "".join("s" if sj["sph"] else "c" for sj in bj2)
+    kind = case["kind"] + ("-" + case["stream"] if case.get("stream") else "")
     return {"detail": details[0] if details else None, "nontrivial": bool(nontriv),
-            "tag": "%s %s n=%d %s" % (case["kind"], fn, len(bj), pat)}
+            "tag": "%s %s n=%d %s" % (kind, fn, len(bj), pat)}
 
 
 def gen_prm(rng, fn):
@@ -677,6 +850,61 @@ def gen_numeric(tier, rng):
     return cases
 
 
+def gen_numeric_conv(tier, rng):
+    """public functions on bases in which shells of ONE angular momentum carry DIFFERENT conventions (default /
+    permuted Cartesian order / permuted+signed pure labels / both), inside one basis and, for the asymmetric overlap,
+    across the two bases; all-spherical, all-Cartesian and mixed assignments (the all-spherical asymmetric path is
+    generated explicitly).  Reference as in the 'conv' cases: the same shells in the default convention, permuted and
+    signed per shell."""
+    cases = []
+    thorough = tier != "quick"
+
+    def shared_basis(n, l, flavours, pattern, lmax_other, mmax):
+        bj = gen_basis(rng, n, lmax_other, mmax=mmax)
+        pos = rng.sample(range(n), len(flavours))
+        for i, p_ in enumerate(pos):
+            bj[p_]["l"] = l
+        b = with_types(bj, pattern)
+        fl = dict(zip(pos, flavours))
+        conv = [draw_conv(rng, sj["l"], fl.get(i, rng.choice(FLAVOURS))) for i, sj in enumerate(b)]
+        return b, conv
+
+    for fn in FUNCS:
+        eri = fn == "eri"
+        asym = fn == "overlap_asymm"
+        nrep = (4 if asym else 2) * (3 if thorough else 1)
+        for i in range(nrep):
+            n = 2 if (eri or i % 2 == 0) else 3
+            l = 1 if eri else rng.choice([2, 2, 3, 1])
+            if asym:
+                k1 = rng.randint(1, 2)
+                fl = rng.sample(FLAVOURS, k1 + 1)
+                if i % 2 == 0:      # the key pairing of a first-seen-wins cache: same pure labels, other Cartesian order
+                    fl = rng.sample(["default", "cart"], 2) + ["sph"]
+                    k1 = rng.randint(1, 2)
+                    fl = fl[:k1] + [fl[-1 if k1 == 2 else 1]]
+                n = max(n if i >= 2 else k1, k1)
+                pats = conv_patterns(rng, n)
+                pattern = pats[0] if i < 2 or i % 4 < 2 else pats[-1]
+                b, conv = shared_basis(n, l, fl[:k1], pattern, 2, 2)
+                n2 = rng.randint(1, 2)
+                p2 = (1,) * n2 if (i < 3 or i % 4 < 3) else tuple(rng.randint(0, 1) for _ in range(n2))
+                b2, conv2 = shared_basis(n2, l, fl[k1:], p2, 2, 2)
+            else:
+                pats = conv_patterns(rng, n)
+                pattern = pats[0] if i % 2 == 0 else pats[rng.choice([1, 2])]
+                b, conv = shared_basis(n, l, draw_flavours(rng, 2 if n == 2 else rng.choice([2, 3])), pattern,
+                                       1 if eri else 2, 1 if eri else 2)
+            c = {"kind": "conv", "stream": "same-l", "fn": fn, "basis": b, "prm": gen_prm(rng, fn), "conv": conv,
+                 "T": gen_T_rat(rng, nfun_json(b)) if i % 2 == 1 else None}
+            if asym:
+                c["basis2"] = b2
+                c["conv2"] = conv2
+                c["T2"] = gen_T_rat(rng, nfun_json(b2)) if c["T"] is not None else None
+            cases.append(c)
+    return cases
+
+
 # ------------------------------------------------------------------------------------------------
 def eval_case(model, case):
     if case["kind"] == "lab":
@@ -698,7 +926,8 @@ def shrink_case(case):
                     c[key] = lst[:i] + lst[i + 1:]
                     yield refit(c)
             for i, sp in enumerate(lst):
-                for ch in ({"M": sp["M"] - 1} if sp["M"] > 1 else None, {"l": sp["l"] - 1} if sp["l"] > 0 else None):
+                for ch in ({"M": sp["M"] - 1} if sp["M"] > 1 else None,
+                           {"l": sp["l"] - 1} if sp["l"] > 0 and not sp.get("conv") else None):
                     if ch:
                         c = dict(case)
                         c[key] = lst[:i] + [dict(sp, **ch)] + lst[i + 1:]
@@ -719,7 +948,9 @@ def refit(case):
 
 def gen_cases(tier, seed):
     rng = random.Random(7000003 * seed + 9)
-    return gen_labelled(tier, rng) + gen_numeric(tier, random.Random(7000003 * seed + 10))
+    return (gen_labelled(tier, rng) + gen_numeric(tier, random.Random(7000003 * seed + 10))
+            + gen_labelled_conv(tier, random.Random(7000003 * seed + 11))
+            + gen_numeric_conv(tier, random.Random(7000003 * seed + 12)))
 
 
 def run(rep, tier, seed, model, replay):
